@@ -42,13 +42,23 @@ def all_digraphs(n, stride=1):
         yield names, edges
 
 
-def make(names, edges, src_type="input"):
+def make(names, edges, src_type="input", flavour=None):
     preds = {n: [u for u, v in edges if v == n] for n in names}
     succ = {n: [v for u, v in edges if u == n] for n in names}
     spec = {}
     for n in names:
         spec[n] = (("and" if preds[n] else src_type), preds[n])
     outs = [n for n in names if not succ[n]] or names[-1:]
+    if flavour == "dangling":
+        # sinks that nobody observes and sources that are not inputs: only the first sink is an output, every source but the first
+        # is a constant (the structure a query walks is the same; what is an endpoint / a startpoint is not)
+        outs = outs[:1]
+        first = True
+        for n in names:
+            if not preds[n]:
+                if not first:
+                    spec[n] = ("1", [])
+                first = False
     return build(spec, outputs=outs)
 
 
@@ -67,11 +77,11 @@ def longest_to(g, targets, pred=True):
     return max(d for d in dist.values() if d is not None)
 
 
-def check_graph(chk, P, names, edges, counters, light=False):
-    c = make(names, edges)
+def check_graph(chk, P, names, edges, counters, light=False, flavour=None):
+    c = make(names, edges, flavour=flavour)
     g = c.graph
     cyc = not g.is_dag()
-    tag = f"n={len(names)}:" + ",".join(f"{u}{v}" for u, v in edges)
+    tag = f"n={len(names)}:" + ",".join(f"{u}{v}" for u, v in edges) + (f":{flavour}" if flavour else "")
 
     def call(m, *a, **k):
         counters["evals"] += 1
@@ -105,6 +115,14 @@ def check_graph(chk, P, names, edges, counters, light=False):
         ep = c.outputs()
         expect("C12.Q.startpoints", "of-node", call("startpoints", n), ({n} | g.ancestors(n)) & sp)
         expect("C12.Q.endpoints", "of-node", call("endpoints", n), ({n} | g.descendants(n)) & ep)
+        # a set handed in is the caller's: it is read, not enlarged - the next query with the same object answers for the same nodes
+        mine = {n}
+        call("startpoints", mine)
+        expect("C12.Q.endpoints", "of-a-set-already-used-in-a-query", call("endpoints", mine), ({n} | g.descendants(n)) & ep)
+        call("endpoints", mine)
+        expect("C12.Q.startpoints", "of-a-set-already-used-in-a-query", call("startpoints", mine), ({n} | g.ancestors(n)) & sp)
+        if mine != {n}:
+            fail("C12.Q.startpoints", "argument-set-modified", sorted(mine), [n])
     expect("C12.Q.startpoints", "all", call("startpoints"), {x for x in names if c.type(x) == "input"})
     expect("C12.Q.endpoints", "all", call("endpoints"), c.outputs())
     # an empty node list is a node list: nothing is among "ns and its ancestors"
@@ -335,6 +353,9 @@ def run(chk):
         for names, edges in all_digraphs(n):
             check_graph(chk, P, names, edges, counters)
             n_graphs += 1
+            if n == 3:
+                check_graph(chk, P, names, edges, counters, flavour="dangling")
+                n_graphs += 1
     # 4 nodes: every acyclic digraph (543; depth / kcuts / reconvergence only make sense there) and a systematic
     # subset (quick) or all (thorough) of the cyclic ones
     idx = 0
@@ -349,6 +370,9 @@ def run(chk):
             continue
         check_graph(chk, P, names, edges, counters, light=(chk.tier != "thorough" and dag and idx % 5 != 0))
         n_graphs += 1
+        if dag and (chk.tier == "thorough" or idx % 7 == 0):
+            check_graph(chk, P, names, edges, counters, light=True, flavour="dangling")
+            n_graphs += 1
     for rule, cnt in sorted(counters["obs"].items()):
         mine = {k: v for k, v in counters["fails"].items() if v[0] == rule}
         if not mine:
